@@ -1865,6 +1865,55 @@ example : |(probsSvdGenθ PM.C02.exU ⟨1/10, 0⟩ uCfg [⟨1, gTerms⟩]).logic
     (by intro g hg; simp only [List.mem_singleton] at hg; subst hg; exact gSV.len)
     (by decide +kernel)
 
+/-! ### `check_heralds_detectors`: the early exit lies outside the property's quantifier
+
+The property quantifies over expected herald values 0 or 1; every detector reports at least one photon
+(`max_detections ≥ 1` or unbounded).  Then the first statement of `probs_svd` never takes its early exit, and
+`probs_svd` is the function the theorems above are about.  (With a herald expecting more than its detector can report
+the code returns `physical_perf = 1`, `logical_perf = 0` and no result: the product is the retained probability 0; the
+physical performance is then a convention, not the probability of passing the filter — outside the statement.) -/
+
+/-- **early_exit_out_of_scope.** -/
+theorem early_exit_out_of_scope (eng : Fock → D) (c : Cfg) (ds : List Det) (maxes : List (Option ℕ))
+    (members : List Member) (hv : ∀ p ∈ c.heralds, p.2 ≤ 1) (hm : ∀ mx ∈ maxes, ∀ k, mx = some k → 1 ≤ k) :
+    checkHeraldsDetectors c.heralds maxes = true ∧
+    probsSvdGuarded eng c ds maxes members = probsSvdDet eng c ds members := by
+  have h : checkHeraldsDetectors c.heralds maxes = true := by
+    unfold checkHeraldsDetectors
+    simp only [Bool.or_eq_true, List.all_eq_true]
+    right
+    intro p hp
+    have hp1 := hv p hp
+    cases hmx : maxes.getD p.1 none with
+    | none => rfl
+    | some mx =>
+      have hmem : some mx ∈ maxes := by
+        rw [List.getD_eq_getElem?_getD] at hmx
+        cases hg : maxes[p.1]? with
+        | none => simp [hg] at hmx
+        | some o =>
+          simp only [hg, Option.getD_some] at hmx
+          rw [← hmx]
+          exact List.mem_of_getElem? hg
+      have := hm _ hmem mx rfl
+      simp only [Bool.not_eq_eq_eq_not, Bool.not_true, decide_eq_false_iff_not, not_lt]
+      omega
+  exact ⟨h, by unfold probsSvdGuarded; rw [if_pos h]⟩
+
+/-- when the exit is taken the reported product is 0 -/
+theorem early_exit_product (eng : Fock → D) (c : Cfg) (ds : List Det) (maxes : List (Option ℕ))
+    (members : List Member) (h : checkHeraldsDetectors c.heralds maxes = false) :
+    (probsSvdGuarded eng c ds maxes members).results = [] ∧
+    (probsSvdGuarded eng c ds maxes members).phys * (probsSvdGuarded eng c ds maxes members).logical = 0 := by
+  unfold probsSvdGuarded
+  simp [h]
+
+example : checkHeraldsDetectors [(0, 1), (2, 0)] [some 1, none, some 2] = true ∧
+    checkHeraldsDetectors [(0, 2)] [some 1, none] = false ∧ checkHeraldsDetectors [(0, 2)] [] = true := by decide
+
+example : (probsSvdGuarded idEng { dCfg with heralds := [(0, 2)] } dDetsP [some 1, some 2] dMembers).phys = 1 := by
+  decide +kernel
+
 /-! ### what is still NOT a theorem
 
 * probability trimming is now modelled on every path of `probs_svd`: fast path (`probsSvdθ`), layouts with a non-PNR
@@ -1894,7 +1943,7 @@ example : |(probsSvdGenθ PM.C02.exU ⟨1/10, 0⟩ uCfg [⟨1, gTerms⟩]).logic
 * history-independence is proved for *selection* changes (heralds, post-selection, filter, keep_heralds, detectors)
   of a reused `Simulator` (`probs_svd`, fast path) and `Processor` (`probs`) on a fixed circuit; `evolve` /
   `evolve_svd` / the generic path's `_evolve` cache on a reused object, and circuit / input / noise / precision changes
-  are C05's machines (abstract identifiers), not re-proved here; `check_heralds_detectors`' early exit is not in the
-  session model (not generated). -/
+  are C05's machines (abstract identifiers), not re-proved here; `check_heralds_detectors`' early exit is modelled
+  statelessly (`probsSvdGuarded`, `early_exit_out_of_scope`), not inside the session machines. -/
 
 end PM.C04
